@@ -358,6 +358,60 @@ func (g *fsGen) next() string {
 		cwd, _ := g.impl.views[vid].Getwd()
 		return pre + "sub " + h(g.subDir(cwd))
 	}
+	if vid == 0 && r.Bool(3) && !g.opts.views {
+		// a directory directly below the root whose name comes back inside the path of a descendant, renamed: every
+		// descendant must follow under the new prefix, once (file systems that keep paths as keys rewrite them)
+		x := lib.Pick(r, []string{"a", "b", "c"})
+		y := lib.Pick(r, []string{x, x + "b", "z" + x, x})
+		z := lib.Pick(r, []string{"n", "nn", x + "x"})
+		g.queue = append(g.queue, fmt.Sprintf(dom+" 0 mkdirall %s 493", h("/"+x+"/"+y+"/"+x)),
+			fmt.Sprintf(dom+" 0 writefile %s %s 420", h("/"+x+"/"+y+"/f"), h("F")),
+			fmt.Sprintf(dom+" 0 link %s %s", h("/"+x+"/"+y+"/f"), h("/"+x+"/g")),
+			fmt.Sprintf(dom+" 0 rename %s %s", h("/"+x), h("/"+z)))
+		for _, q := range []string{"lstat " + h("/"+z+"/"+y), "readfile " + h("/"+z+"/"+y+"/f"), "lstat " + h("/"+z+"/"+y+"/"+x), "readdir " + h("/"+z),
+			"lstat " + h("/"+z+"/g"), "mkdir " + h("/"+z+"/"+y) + " 493", "remove " + h("/"+z+"/"+y), "lstat " + h("/"+x+"/"+y)} {
+			g.queue = append(g.queue, dom+" 0 "+q)
+		}
+		l := g.queue[0]
+		g.queue = g.queue[1:]
+		return l
+	}
+	if g.opts.files && vid == 0 && r.Bool(3) {
+		// an appending handle on a file that already has content: where the write lands, where the offset is afterwards,
+		// what the next read sees; a second handle grows the file in between
+		f := "/" + lib.Pick(r, []string{"ap", "tmp/ap"})
+		ha, hb := g.impl.nextH, g.impl.nextH+1 // the two opens below succeed (the file has just been written)
+		g.queue = append(g.queue, fmt.Sprintf(dom+" 0 writefile %s %s 420", h(f), h("abcdef")),
+			fmt.Sprintf(dom+" 0 openfile %s %d 0", h(f), lib.Pick(r, []int{0x402, 0x401})),
+			fmt.Sprintf(dom+" 0 openfile %s 2 0", h(f)),
+			fmt.Sprintf(dom+" 0 file %d write %s", ha, h("xyz")), fmt.Sprintf(dom+" 0 file %d seek 0 1", ha), fmt.Sprintf(dom+" 0 file %d read 4", ha),
+			fmt.Sprintf(dom+" 0 file %d seek 0 2", hb), fmt.Sprintf(dom+" 0 file %d write %s", hb, h("GROWN")),
+			fmt.Sprintf(dom+" 0 file %d seek 1 0", ha), fmt.Sprintf(dom+" 0 file %d write %s", ha, h("!")), fmt.Sprintf(dom+" 0 file %d seek 0 1", ha),
+			fmt.Sprintf(dom+" 0 readfile %s", h(f)))
+		l := g.queue[0]
+		g.queue = g.queue[1:]
+		return l
+	}
+	if g.opts.users && !g.opts.views && vid == 0 && r.Bool(3) {
+		// restricted deletion: a sticky directory everybody may write to, files of two users, each acting on the other's
+		d := "/tmp/sh"
+		g.queue = append(g.queue, dom+" 0 setuser 0 0 1", fmt.Sprintf(dom+" 0 mkdirall %s 511", h(d)), fmt.Sprintf(dom+" 0 chmod %s %d", h(d), 0o1777),
+			dom+" 0 setuser 1001 1001 0", fmt.Sprintf(dom+" 0 writefile %s %s 420", h(d+"/a"), h("A")),
+			dom+" 0 setuser 1002 1002 0", fmt.Sprintf(dom+" 0 writefile %s %s 420", h(d+"/b"), h("B")),
+			dom+" 0 setuser 1001 1001 0")
+		for _, q := range lib.Pick(r, [][]string{
+			{"rename " + h(d+"/a") + " " + h(d+"/b"), "readfile " + h(d+"/b")},
+			{"remove " + h(d+"/b"), "lstat " + h(d+"/b")},
+			{"rename " + h(d+"/b") + " " + h(d+"/c"), "lstat " + h(d+"/b")},
+			{"removeall " + h(d+"/b"), "lstat " + h(d+"/b")},
+			{"rename " + h(d+"/a") + " " + h(d+"/c"), "rename " + h(d+"/c") + " " + h(d+"/b")}}) {
+			g.queue = append(g.queue, dom+" 0 "+q)
+		}
+		g.queue = append(g.queue, dom+" 0 setuser 0 0 1")
+		l := g.queue[0]
+		g.queue = g.queue[1:]
+		return l
+	}
 	if g.opts.enum && g.opts.users && vid == 0 && r.Bool(4) {
 		// enumeration by a plain user over sibling directories of which one cannot be read / searched: matches gathered
 		// before and after it, errors handed to the WalkDir callback
